@@ -1,6 +1,8 @@
 package main
 
 import (
+	"runtime/debug"
+	"runtime/pprof"
 	"encoding/json"
 	"flag"
 	"fmt"
@@ -65,6 +67,12 @@ func buildOverlay(repo, hdir string, filter func(name string) bool) (map[string]
 }
 
 func main() {
+	debug.SetGCPercent(400)
+	if pf := os.Getenv("VSYM_PROF"); pf != "" {
+		f, _ := os.Create(pf)
+		pprof.StartCPUProfile(f)
+		defer pprof.StopCPUProfile()
+	}
 	if len(os.Args) > 1 && os.Args[1] == "check" {
 		fs := flag.NewFlagSet("check", flag.ExitOnError)
 		repo := fs.String("repo", "/repo", "repository under test")
